@@ -51,6 +51,12 @@ pub fn run_c11(args: &Args) -> Report {
                 }
             }
         }
+        // a directory whose own name looks like a source name, with a real source inside
+        if rng.chance(1, 2) {
+            p.dirs.push("pages.txtpp".to_string());
+            p.files.push(("pages.txtpp/x.txt.txtpp".to_string(), b"in a directory called pages.txtpp\n".to_vec()));
+            p.sources.push("pages.txtpp/x.txt.txtpp".to_string());
+        }
         // an extra source with a dotted stem in the foo.txtpp.ext shape (finding F6)
         if rng.chance(1, 2) {
             p.files.push(("lib.min.txtpp.js".to_string(), b"dotted stem\n".to_vec()));
@@ -117,6 +123,16 @@ pub fn run_c11(args: &Args) -> Report {
                     let s = &all_sources[j];
                     let alias = match s.rfind('/') {
                         Some(i) => format!("{}/../{}/{}", &s[..i], s[..i].rsplit('/').next().unwrap(), &s[i + 1..]),
+                        // a top-level source spelled through some directory: `d/../s` (lexically below `d`, really beside it)
+                        None if !p.dirs.is_empty() && rng.chance(1, 2) => {
+                            let d = rng.pick(&p.dirs).clone();
+                            let ups = "../".repeat(d.matches('/').count() + 1);
+                            if rng.chance(1, 2) && !inputs.contains(&d) {
+                                inputs.push(d.clone());
+                                dirs_named.push(d.clone());
+                            }
+                            format!("{d}/{ups}{s}")
+                        }
                         None => format!("./{s}"),
                     };
                     inputs.push(alias);
@@ -128,7 +144,18 @@ pub fn run_c11(args: &Args) -> Report {
                     named.insert(j);
                 }
                 8 => {
-                    inputs.push((*rng.pick(&["missing.txt", "missing.txtpp", "nodir/x.txt", "a.txt"])).to_string());
+                    // no source stands behind any of these (missing, or a look-alike that is not a txtpp name)
+                    if !p.dirs.is_empty() && rng.chance(1, 3) {
+                        // a missing target spelled through a directory that is itself an input
+                        let d = rng.pick(&p.dirs).clone();
+                        if !inputs.contains(&d) {
+                            inputs.push(d.clone());
+                            dirs_named.push(d.clone());
+                        }
+                        inputs.push(format!("{d}/nosuch.txt"));
+                    } else {
+                        inputs.push((*rng.pick(&["missing.txt", "missing.txtpp", "nodir/x.txt", "a.txt", ".txtpp", "txtpp", "./.txtpp"])).to_string());
+                    }
                     expect_err = true;
                 }
                 _ => {
